@@ -184,6 +184,22 @@ def work_net(item):
                         envb[f"vctrl_{o}"] = env[f"v_{tA.out_links(node)[0].name}[0]"]
             rb, eb = numrun.numpy_float(tB, envb, style)
             acc.d["extra"]["inf_companion_runs"] += 1
+            # the same with whole numbers held in integer-dtype state arrays (plain execution: dtype is outside the symbolic model)
+            envi = {k: (float(round(v)) if (k.startswith("rho_") or k.startswith("v_")) and v == v and abs(v) != float("inf") else v) for k, v in env.items()}
+            envbi = {k: (float(round(v)) if (k.startswith("rho_") or k.startswith("v_")) and v == v and abs(v) != float("inf") else v) for k, v in envb.items()}
+            if "v_ctrl >= v_1" in label:
+                for node, (o, kk) in tA.origins.items():
+                    if kk == "main":
+                        envbi[f"vctrl_{o}"] = envi[f"v_{tA.out_links(node)[0].name}[0]"]
+            rai, eai = numrun.numpy_float(tA, envi, style, int_states=True)
+            rbf, ebf = numrun.numpy_float(tB, envbi, style)
+            if eai is None and ebf is None:
+                for key in rai:
+                    if any(not numrun.close(x, y, 1e-9, 1e-9) for x, y in zip(rai[key], rbf[key])):
+                        acc.d["violations"].append({"key": f"int:{tA.name}:{label}", "group": f"int:{label}",
+                                                    "what": f"{tA.describe()} | '{label}' with infinite limit and integer-dtype state arrays: {key} = {rai[key]} vs uncontrolled {rbf[key]}",
+                                                    "replay": {"property": PID, "kind": "inf", "topoA": tA.to_json(), "topoB": tB.to_json(), "style": style, "env": envi, "envb": envbi}})
+                        break
             if ea is not None or eb is not None:
                 acc.exec_violation(PID, tA, "numpy[inf]", style, f"pair '{label}' with infinite limits raised {ea or eb!r}", extra={"env": env})
             else:
